@@ -9,7 +9,7 @@ from hypothesis import strategies as st
 
 from AegeanTools.source_finder import SourceFinder
 from vlib import refs, skyimg
-from vlib.core import Res
+from vlib.core import Res, workdir
 
 PROP = "C01"
 SHARDS = {"quick": 16, "thorough": 16}
@@ -166,7 +166,7 @@ def check_noise_free(c):
         res.label("excluded-K1")
         return res
     bkg = c["bkg"]
-    d = tempfile.mkdtemp(prefix="c01_")
+    d = workdir("c01_")
     try:
         path = os.path.join(d, "im.fits")
         single = c.get("bitpix", -64) == -32
@@ -285,7 +285,7 @@ def check_noisy(c):
         res.excluded_known += 1
         res.label("excluded-K1")
         return res
-    d = tempfile.mkdtemp(prefix="c01n_")
+    d = workdir("c01n_")
     try:
         comps, near = one_noisy_run(c, B, c["seed"], d)
         what = "%s dec0=%.1f scale=%.1f\" src (a=%.2f b=%.2f px pa=%.1f) snr=%.0f docov=%s internal=%s" % (
